@@ -55,10 +55,24 @@ func corpus() [][]sh.Op {
 		{addPod, addPod1, addN0, {Kind: "RemoveNode", N: "n0", P: "p1"}, {Kind: "GetNodesByPod", P: "p0", All: true}, {Kind: "GetNode", N: "n0"},
 			{Kind: "UpdateNodes", Nodes: []sh.NodeArg{{N: sh.NData{Name: "n1", Ep: "verif://n1", Pod: "p1", Bypass: true, Test: true}, Cert: "c"}}},
 			{Kind: "GetNodesByPod", P: "", All: false}, {Kind: "GetNodesByPod", P: "", All: true, Lbl: sh.Labels{"l": "x"}}, {Kind: "RemovePod", P: "p1"}},
+		// prefix-related names: in-flight processing of (a0, e0-t) and (a0x, e0) must not be counted for (a0, e0);
+		// workloads of n10 / a0x are not listed under n1 / a0
+		{addPod, addN0, {Kind: "AddNode", Nodes: []sh.NodeArg{node("n1", "p0", nil, "")}}, {Kind: "AddNode", Nodes: []sh.NodeArg{node("n10", "p0", nil, "")}},
+			{Kind: "CreateProcessing", Pr: &sh.Proc{App: "a0", Entry: "e0", Node: "n0", Ident: "i0"}, Cnt: 2},
+			{Kind: "CreateProcessing", Pr: &sh.Proc{App: "a0", Entry: "e0-t", Node: "n0", Ident: "i0"}, Cnt: 3},
+			{Kind: "CreateProcessing", Pr: &sh.Proc{App: "a0x", Entry: "e0", Node: "n1", Ident: "i1"}, Cnt: 4},
+			{Kind: "GetDeployStatus", A: "a0", E: "e0"}, {Kind: "GetDeployStatus", A: "a0x", E: "e0"}, {Kind: "GetDeployStatus", A: "a0", E: "e0-t"},
+			{Kind: "AddWorkload", W: wl("w1", "a0_e0_s", "n1")}, {Kind: "AddWorkload", W: wl("w10", "a0x_e0-t_s", "n10")}, {Kind: "AddWorkload", W: wl("w2", "a0_e0-t_s", "n10")},
+			{Kind: "ListNodeWorkloads", N: "n1"}, {Kind: "ListWorkloads", A: "a0", E: "e0", N: "n1"}, {Kind: "ListWorkloads", A: "a0"}, {Kind: "GetDeployStatus", A: "a0", E: "e0"},
+			{Kind: "GetWorkloads", Names: []string{"w1", "w10"}}, {Kind: "GetNodes", Names: []string{"n1", "n10"}}},
+		// list limits: more matches than the limit
+		{addPod, addN0, {Kind: "AddWorkload", W: wl("w0", "a0_e0_s", "n0")}, {Kind: "AddWorkload", W: wl("w1", "a0_e0_s", "n0")}, {Kind: "AddWorkload", W: wl("w2", "a0x_e0_s", "n0")},
+			{Kind: "ListWorkloads", Limit: 1}, {Kind: "ListWorkloads", Limit: 2}, {Kind: "ListWorkloads", Limit: 3}, {Kind: "ListWorkloads", Limit: 4},
+			{Kind: "ListWorkloads", A: "a0", E: "e0", N: "n0", Limit: 1}, {Kind: "ListWorkloads", A: "a0", Limit: 1, Lbl: sh.Labels{"l": "x"}}},
 		// workload whose node is gone; invalid names; status of a missing entity
 		{addPod, addN0, {Kind: "AddWorkload", W: wl("w0", "a0_e0_s", "n0")}, {Kind: "RemoveNode", N: "n0", P: "p0"}, {Kind: "GetWorkload", N: "w0"},
 			{Kind: "ListWorkloads"}, {Kind: "AddWorkload", W: wl("w1", "bad", "n0")}, {Kind: "RemoveWorkload", W: wl("w1", "bad", "n0")},
-			{Kind: "UpdateWorkload", W: wl("w2", "a0_e0_s", "n0")}, {Kind: "SetWorkloadStatus", St: &sh.WStat{ID: "w3"}, A: "a0", E: "e0", N: "n0", TTL: 4},
+			{Kind: "UpdateWorkload", W: wl("w2", "a0_e0_s", "n0")}, {Kind: "SetWorkloadStatus", St: &sh.WStat{ID: "w2"}, A: "a0", E: "e0", N: "n0", TTL: 4},
 			{Kind: "SetWorkloadStatus", St: &sh.WStat{ID: "w0"}, A: "a0", E: "", N: "n0", TTL: 4}, {Kind: "SetNodeStatus", N: "n0", P: "p0", TTL: 0}},
 	}
 }
